@@ -666,11 +666,13 @@ Proof.
     apply (ins_with_key n (ins_p (ckind n) p) rk (VRef 0) w); auto; rewrite K; auto.
   - (* PoolList *) rewrite <- K.
     destruct rv as [z|i]; cbn [rlive rval] in *.
-    + destruct (nc_insert_ok n PBack 0 (VInt z) w W H Hb) as (c' & w' & E & T & K' & A); try (rewrite K; cbn; congruence).
-      { intros _. exact Logic.I. }
+    + assert (P1 : has_key (ckind n) = true -> In 0 (dom (heap w))) by (rewrite K; cbn; congruence).
+      assert (P3 : dup_assign (ckind n) = true -> exists s, VInt z = VRef s) by (rewrite K; cbn; congruence).
+      destruct (nc_insert_ok n PBack 0 (VInt z) w W H Hb P1 (fun _ => Logic.I) P3) as (c' & w' & E & T & K' & A).
       exists c', w'. split; [exact E|]. split; [exact T|]. split; [exact K'|]. rewrite A, K. reflexivity.
-    + destruct (nc_insert_ok n PBack 0 (VRef i) w W H Hb) as (c' & w' & E & T & K' & A); try (rewrite K; cbn; congruence).
-      { intros _. exact Lv. }
+    + assert (P1 : has_key (ckind n) = true -> In 0 (dom (heap w))) by (rewrite K; cbn; congruence).
+      assert (P3 : dup_assign (ckind n) = true -> exists s, VRef i = VRef s) by (intros _; eauto).
+      destruct (nc_insert_ok n PBack 0 (VRef i) w W H Hb P1 (fun _ => Lv) P3) as (c' & w' & E & T & K' & A).
       exists c', w'. split; [exact E|]. split; [exact T|]. split; [exact K'|]. rewrite A, K.
       apply spec_ins_ext; cbn; auto. intros Q. discriminate.
   - (* PoolMap *) rewrite <- K.
@@ -744,6 +746,9 @@ Proof.
     fold (nabs w' c') (nabs (sw st) n). rewrite K, A. reflexivity.
 Qed.
 
+Lemma map_repeat' {A B} (f : A -> B) x n : map f (repeat x n) = repeat (f x) n.
+Proof. induction n; cbn [repeat map]; auto. f_equal. auto. Qed.
+
 (* ---- OResize ---- *)
 Lemma step_resize st x n va : Inv st -> step_good st (OResize x n va).
 Proof.
@@ -757,7 +762,7 @@ Proof.
     exists true, st'. split; [exact E'|]. split; [exact IV'|]. rewrite A'. cbn [abs_cont].
     fold (aabs w' a') (aabs (sw st) a). rewrite !aabs_avals, V.
     unfold spec_resize. rewrite map_app, firstn_map, map_length. unfold avals at 2. rewrite map_length.
-    f_equal. f_equal. apply map_repeat.
+    rewrite map_repeat'. reflexivity.
   - destruct (inv_get st x _ IV G) as (_ & _ & WF). cbn [vwf] in WF.
     destruct (ckind c); try (exists false, st; auto; fail). discriminate.
 Qed.
